@@ -276,6 +276,7 @@ def step (st : St) (line : String) : St × String :=
           fail s!"SPEC supply equation violated on the real ledger: total={o.totalSupply} accounts={accountsTotal o} common={o.common} gov={o.govDeposits} lastBlockFees={o.lastBlockFees}(spent={o.lbfSpent}) feeAcc={o.feeAcc}"
         else if !(sharesOk o) then fail "SPEC share bookkeeping violated on the real ledger: a pool's total shares differ from the sum of its delegations"
         else if !(scopeOk o) then fail "SPEC debonding entry for an unknown account"
+        else if !(wfB o) then fail "SPEC pool with a balance but without shares on the real ledger"
         else match st.prevTotal with
           | some pt =>
             if o.totalSupply + st.implBurned != pt then
